@@ -59,6 +59,12 @@ CLAIMED = {
         text="Theorem C04_bytes: for every header in the legal domain, every partition of the record sequence into write_points calls (any sizes, empty chunks, a single chunk) and every EVLR list, the session's bytes equal the one-shot session's bytes; empty chunks are no-ops in every state; after write_evlrs (non-empty) or close a non-empty chunk is refused, as are points of another format/record length, without producing a new state. Correspondence: all compositions of small n plus seeded partitions on the real LasWriter vs LasData.write vs the model; late writes and foreign formats must raise and leave getvalue() unchanged. Compressed equality is part of C14.",
         note="Trusted: FloatLaws hypothesis for the extrema (as C03); BytesIO write semantics (overwrite at position 0 keeps the tail).",
         design="6 (C04)"),
+    "C05": dict(
+        engine="fileio",
+        technique="Lean 4 refinement proof: the concrete reader (read_points mirrored, seek generated from LasReader.seek's AST) refines the cursor specification for every operation sequence, by induction with the invariant 0 <= cursor <= count; byte-level theorem for the uncompressed point source; correspondence with real LasReader histories",
+        text="seek is translated from the Python source on every run and proved equal to the specification's rule (target in [0,count) accepted for SET/CUR/END and every integer pos, IndexError otherwise, ValueError for another whence); step_refines/C05_refines: for every finite sequence over read_points(n in Z), seek, next(chunk_iterator(k)) and read(), outputs and final cursor equal the cursor model's; reads return min(n, remaining) from the cursor (all remaining for n<0), never reach beyond the point count, and an exhausted or empty file yields empty slices; a refused seek leaves the cursor unchanged; at byte level a read at cursor c of l points returns exactly the bytes of records c..c+l-1. Correspondence: seeded and (thorough) exhaustive short histories on real readers over files of 0/1/many points with trailing EVLRs, each returned block located in the full point array.",
+        note="Trusted: Lean kernel; translator subset (Int arithmetic, range membership); BytesIO/file seek+readinto semantics for the byte-level claim (well-formed files; truncated files are C19).",
+        design="6 (C05)"),
 }
 NOT_YET = "check not built yet in this round (planned per DESIGN.md section 10); not claimed until its theorems build and its check is quiet"
 
